@@ -138,6 +138,13 @@ def run_once(sc, schedule, seed=None, line_preempt=None, back=False):
             for i in range(sc.get("receivers", 0)):
                 ths.append(sched.spawn(receiver(i), "r%d" % (i + 1)))
             sched.block(lambda: all(t.done for t in ths), 1000, what="join all")
+            if sc.get("after_recv_data"):
+                # afterwards one more message is read with recv_data() by the main thread
+                try:
+                    op, d = ws.recv_data()
+                    sched.ev("final", kind="ret", op=int(op), data=list(bytes(d) if not isinstance(d, str) else d.encode()))
+                except Exception as e:      # noqa
+                    sched.ev("final", kind="raise", cls=type(e).__name__)
         sched.run(main, "main", wall=30)
     finally:
         undo()
@@ -163,6 +170,8 @@ def run_once(sc, schedule, seed=None, line_preempt=None, back=False):
             ev.append({"ev": "raise", "th": e["th"], "cls": e["cls"]})
         elif e["ev"] == "deadlock":
             ev.append({"ev": "deadlock"})
+        elif e["ev"] == "final":
+            out["final"] = {k: v for k, v in e.items() if k in ("kind", "op", "data", "cls")}
     # harness decoder over the complete wire (content of frames larger than the recorded 300 bytes)
     try:
         frames = wire.decode_client_frames(bytes(net.wire))
@@ -174,6 +183,8 @@ def run_once(sc, schedule, seed=None, line_preempt=None, back=False):
         wire_ok = False
     if line_preempt is not None:
         ev[0]["lines"] = trig["n"]
+    if "final" in out:
+        ev[0]["final"] = out["final"]
     ev.append({"ev": "end", "receivers_done": rdone >= nrecv_msgs and nrecv_msgs > 0 or sc.get("receivers", 0) == 0, "wireOk": wire_ok})
     return ev, sched.choices
 
